@@ -292,6 +292,49 @@ def class_sweep_lines(names):
     return lines
 
 
+LONG_QUICK = [32766, 32767, 32768, 32770]
+LONG_MORE = [40000, 70000]
+
+
+def long_subject_lines(thorough):
+    """subjects around and beyond MAX_COUNT = 32767 bytes: `*`, `+`, `{m,}` on a literal, `.` or a bracket expression
+    are UNBOUNDED (the op stores the sentinel MAX_COUNT, SIMPLE_MAXCNT() widens it in match_char/any/class); the
+    reference and the matcher model say what POSIX says.  Restricted to repetitions of simple atoms (and one group
+    iteration around them), where reference and model are linear; every case matches at start 0 or fails in O(n)
+    (no quadratic start scan).  cmatch_refines_llmatch is proved for |subject| < 32767 only: beyond that the
+    correspondence run is the only evidence."""
+    lines = []
+    A = lambda n: b"a" * n
+    for ere in (1, 0):
+        plus = b"+" if ere else b"\\{1,\\}"
+        two = b"{2,}" if ere else b"\\{2,\\}"
+        near = (b"{32766}" if ere else b"\\{32766\\}", b"{2,32766}" if ere else b"\\{2,32766\\}")
+        grp = (b"(a*)" if ere else b"\\(a*\\)")
+        fam = [  # (pattern, subject builder)
+            (b"a*", A), (b"a" + plus, A), (b"^a" + plus + b"$", A), (b"^a" + plus + b"$", lambda n: A(n) + b"b"),
+            (b"a*b", lambda n: A(n) + b"b"), (b"a*b", lambda n: A(n) + b"b" * n), (b"a*b*", lambda n: A(n) + b"b" * n),
+            (b"x.*y", lambda n: b"x" + A(n) + b"y"), (b"x.*y", lambda n: b"x" + A(n)), (b"x.*", lambda n: b"x" + A(n - 1) + b"\n" + A(5)),
+            (b"[ab]*c", lambda n: A(n // 2) + b"b" * (n - n // 2) + b"c"), (b"[^b]*", A), (grp, A), (grp + b"b", lambda n: A(n) + b"b"),
+            (b"a" + two, A), (b"A" + two, A), (b"a" + near[0], A), (b".", A)]
+        fam += [(b"." + near[0] + b"$", lambda n: A(min(n, 32770))), (b"[ab]" + near[1] + b"c", lambda n: A(min(n, 32770)) + b"c")]
+        heavy = (b"a*b*",)          # two long runs: the list-based reference needs minutes beyond 2 x 32770 bytes
+        if not thorough:
+            # quick tier: the two lengths at the limit, ERE, the patterns that tell "unbounded" from "32767"
+            if ere:
+                for pat, mk in fam[:12] + fam[14:15]:
+                    if pat not in heavy:
+                        lines.append(xline(EXT, pat, [0, 1, 2], [0], [mk(32767), mk(32768)]))
+            continue
+        for i, (pat, mk) in enumerate(fam):
+            lens = LONG_QUICK + (LONG_MORE if pat in (b"a*", b"x.*y", b"a*b", b"^a" + plus + b"$") else [])
+            if pat in heavy:
+                lens = [32767, 32768]
+            subs = [mk(n) for n in lens]
+            for cf in ((0, ICASE | NEWLINE) if i % 2 else (0, ICASE)) if i < 8 else (0,):
+                lines.append(xline(cf | (EXT if ere else 0), pat, [0, 1, 2], [0], subs))
+    return lines
+
+
 def rand_subject(rng, maxlen):
     n = rng.below(maxlen + 1)
     style = rng.below(4)
@@ -483,8 +526,8 @@ class Runner:
                      "match": 0, "nomatch": 0, "err_codes": {}, "code_only_diffs": 0}
         self.nfail = 0
 
-    def both_parallel(self, lines):
-        n = max(1, min(NPROC, len(lines) // 8 or 1))
+    def both_parallel(self, lines, per=8):
+        n = max(1, min(NPROC, len(lines) // per or 1))
         size = (len(lines) + n - 1) // n
         parts = [lines[i:i + size] for i in range(0, len(lines), size)]
 
@@ -548,14 +591,14 @@ class Runner:
         # error class) is internal
         return "obs" if co.startswith("ok") else "int"
 
-    def run_x(self, lines, label, nontrivial=True):
+    def run_x(self, lines, label, nontrivial=True, per=8):
         """lines: `x` op lines.  Compare, minimise failures to a single exec, report."""
         ck = self.ck
         if not lines:
             return
         import time as _t
         t0 = _t.time()
-        c_all, m_all = self.both_parallel(lines)
+        c_all, m_all = self.both_parallel(lines, per)
         h = self.hist
         if label not in h.setdefault("sampled", []):
             h["sampled"].append(label)
@@ -979,6 +1022,16 @@ def run(ck):
     lines = class_sweep_lines(names)
     rn.run_x(lines, "class-sweep")
     ck.cov["class_sweep"] = {"classes": len(names), "lines": len(lines), "subject_bytes": "1..255 (each as a one-byte subject)"}
+    if enough():
+        return
+
+    # ---- subjects around and beyond MAX_COUNT bytes (unbounded repetition of simple atoms)
+    lines = long_subject_lines(thorough)
+    rn.run_x(lines, "long-subject", per=1)
+    ck.cov["long_subject"] = {"lines": len(lines), "lengths": LONG_QUICK + LONG_MORE,
+                              "note": "simple-atom repetitions only (linear in reference and model); the refinement theorem "
+                                      "covers |subject| < 32767, longer subjects are covered by this differential family only; "
+                                      "a repeated GROUP is capped at 32767 iterations by the C code (assumption)"}
     if enough():
         return
 
